@@ -374,7 +374,7 @@ theorem encode_gs2Header : Base64.encode sGs2Header = [98, 105, 119, 115] := by 
 /-! ## the SCRAM exchange -/
 
 /-- `client-first-message-bare` as the client builds it -/
-def scramBare (cr : Cred) : Bytes := sNEq ++ cr.user ++ sCommaREq ++ cr.cnonce
+def scramBare (cr : Cred) : Bytes := sNEq ++ scramSaslName cr.user ++ sCommaREq ++ cr.cnonce
 
 /-- the AuthMessage as the client computes it for server-first message `sf` carrying nonce `nonce` -/
 def scramAuthMessage (cr : Cred) (sf nonce : Bytes) : Bytes :=
@@ -428,13 +428,17 @@ theorem scram_reads_serverFirst (cnonce snonce salt : Bytes) (i : Nat) (hc : (44
   · simp [gs2Get, decodeLenient_encode]
   · simp [gs2Get, toInt_natDec i hi]
 
-theorem saslName_id (u : Bytes) (h1 : (44 : UInt8) ∉ u) (h2 : (61 : UInt8) ∉ u) : Ref.saslName u = u := by
+/-- the two `replace` calls of the client are the RFC 5802 §5.1 `saslname` transformation -/
+theorem scramSaslName_eq (u : Bytes) : scramSaslName u = Ref.saslName u := by
+  unfold scramSaslName
   induction u with
   | nil => rfl
   | cons x xs ih =>
-    have hx1 : x ≠ 44 := fun e => h1 (by simp [e])
-    have hx2 : x ≠ 61 := fun e => h2 (by simp [e])
-    simp [Ref.saslName, hx1, hx2, ih (fun e => h1 (by simp [e])) (fun e => h2 (by simp [e]))]
+    by_cases h61 : x = 61
+    · subst h61; simp [replace1, Ref.saslName, ih]
+    · by_cases h44 : x = 44
+      · subst h44; simp [replace1, Ref.saslName, ih]
+      · simp [replace1, Ref.saslName, h61, h44, ih]
 
 /-- the client's state after it answered the RFC-built server-first message -/
 def scramSt2 (C : Crypto) (cr : Cred) (salt snonce : Bytes) (i : Nat) : ScramSt :=
@@ -540,11 +544,6 @@ def escd : Bytes → Bytes
   | [] => []
   | c :: t => if c = 92 then 92 :: 92 :: escd t else if c = 34 then 92 :: 34 :: escd t else c :: escd t
 
-/-- `escd` with the quote escapes already undone -/
-def escMid : Bytes → Bytes
-  | [] => []
-  | c :: t => if c = 92 then 92 :: 92 :: escMid t else c :: escMid t
-
 theorem escape_eq_escd (v : Bytes) : escape v = escd v := by
   unfold escape
   induction v with
@@ -556,88 +555,29 @@ theorem escape_eq_escd (v : Bytes) : escape v = escd v := by
       · subst h34; simp [replace1, escd, ih]
       · simp [replace1, escd, h92, h34, ih]
 
-theorem replace2_cons_ne (a b : UInt8) (r : Bytes) (x : UInt8) (l : Bytes) (h : x ≠ a) :
-    replace2 a b r (x :: l) = x :: replace2 a b r l := by
-  cases l with
-  | nil => simp [replace2]
-  | cons y t => simp [replace2, h]
-
-theorem replace2_cons_head_ne (a b : UInt8) (r : Bytes) (x : UInt8) (l : Bytes) (h : l.head? ≠ some b) :
-    replace2 a b r (x :: l) = x :: replace2 a b r l := by
-  cases l with
-  | nil => simp [replace2]
-  | cons y t =>
-    have hy : y ≠ b := by simpa using h
-    simp [replace2, hy]
-
-theorem escd_head (t : Bytes) : (escd t).head? ≠ some 34 := by
-  cases t with
-  | nil => simp [escd]
-  | cons c t =>
-    by_cases h92 : c = 92
-    · simp [escd, h92]
-    · by_cases h34 : c = 34
-      · simp [escd, h34]
-      · simp [escd, h92, h34]
-
-theorem unquote_escd (v : Bytes) : replace2 92 34 [34] (escd v) = escMid v := by
+/-- the quoted-pair scanner reads an escaped value back, whatever the value -/
+theorem scanQuoted_escd (v rest : Bytes) : scanQuoted (escd v ++ 34 :: rest) = some (v, rest) := by
   induction v with
-  | nil => simp [escd, escMid, replace2]
+  | nil => cases rest <;> simp [escd, scanQuoted]
   | cons c t ih =>
     by_cases h92 : c = 92
     · subst h92
-      simp only [escd, escMid, if_true]
-      rw [replace2_cons_head_ne _ _ _ _ _ (by simp), replace2_cons_head_ne _ _ _ _ _ (escd_head t), ih]
+      simp only [escd, if_true, List.cons_append]
+      rw [scanQuoted]
+      simp [ih]
     · by_cases h34 : c = 34
       · subst h34
-        simp [escd, escMid, replace2, ih]
-      · simp only [escd, escMid, if_neg h92, if_neg h34]
-        rw [replace2_cons_ne _ _ _ _ _ h92, ih]
-
-theorem unbackslash_escMid (v : Bytes) : replace2 92 92 [92] (escMid v) = v := by
-  induction v with
-  | nil => simp [escMid, replace2]
-  | cons c t ih =>
-    by_cases h92 : c = 92
-    · subst h92; simp [escMid, replace2, ih]
-    · simp only [escMid, if_neg h92]
-      rw [replace2_cons_ne _ _ _ _ _ h92, ih]
-
-/-- the two sequential `replace` calls undo the escaping -/
-theorem unescape_escape (v : Bytes) : unescape (escape v) = v := by
-  rw [escape_eq_escd, unescape, unquote_escd, unbackslash_escMid]
-
-theorem getLast?_tail_ne {c : UInt8} {t : Bytes} (h : (c :: t).getLast? ≠ some 92) : t.getLast? ≠ some 92 := by
-  cases t with
-  | nil => simp
-  | cons b l => simpa [List.getLast?_cons_cons] using h
-
-/-- the closing-quote search lands on the real closing quote when the value does not end in a backslash -/
-theorem findClose_escd (t rest : Bytes) (p : UInt8) (hp : p = 92 → t ≠ []) (hl : t.getLast? ≠ some 92) :
-    findClose p (escd t ++ 34 :: rest) = some (escd t).length := by
-  induction t generalizing p with
-  | nil =>
-    have : p ≠ 92 := fun e => hp e rfl
-    simp [escd, findClose, this]
-  | cons c t ih =>
-    have hl' := getLast?_tail_ne hl
-    by_cases h92 : c = 92
-    · subst h92
-      have hne : t ≠ [] := by intro e; subst e; simp at hl
-      simp only [escd, if_true, List.cons_append, findClose]
-      simp only [show ¬ ((92 : UInt8) = 34 ∧ p ≠ 92) by simp, show ¬ ((92 : UInt8) = 34 ∧ (92 : UInt8) ≠ 92) by simp, if_false]
-      rw [ih 92 (fun _ => hne) hl']
-      simp
-    · by_cases h34 : c = 34
-      · subst h34
-        simp only [escd, if_neg h92, if_true, List.cons_append, findClose]
-        simp only [show ¬ ((92 : UInt8) = 34 ∧ p ≠ 92) by simp, if_false]
-        rw [ih 34 (by simp) hl']
-        simp
-      · simp only [escd, if_neg h92, if_neg h34, List.cons_append, findClose]
-        simp only [show ¬ (c = 34 ∧ p ≠ 92) by simp [h34], if_false]
-        rw [ih c (fun e => absurd e h92) hl']
-        simp
+        simp only [escd, if_neg h92, if_true, List.cons_append]
+        rw [scanQuoted]
+        simp [ih]
+      · simp only [escd, if_neg h92, if_neg h34, List.cons_append]
+        cases he : escd t ++ 34 :: rest with
+        | nil => simp at he
+        | cons d r =>
+          rw [scanQuoted]
+          simp only [if_neg h34, if_neg h92]
+          rw [← he, ih]
+          rfl
 
 theorem splitAt1_append (c : UInt8) (a b : Bytes) (h : c ∉ a) : splitAt1 c (a ++ c :: b) = some (a, b) := by
   induction a with
@@ -675,7 +615,7 @@ theorem serEntry_eq (kv : Bytes × Bytes) : serEntry kv = kv.1 ++ 61 :: valEnc k
 
 /-- one round of the parse loop on one serialized entry followed by nothing or by `,…` -/
 theorem parseGo_entry (fuel : Nat) (k v tailS : Bytes) (acc : DMap)
-    (hk : (61 : UInt8) ∉ k) (hkt : trim k = k) (hv : v.getLast? ≠ some 92)
+    (hk : (61 : UInt8) ∉ k) (hkt : trim k = k)
     (ht : tailS = [] ∨ tailS.head? = some 44) :
     parseGo (fuel + 1) (k ++ 61 :: (valEnc v ++ tailS)) acc = parseGo fuel (tailS.drop 1) (mapInsert acc k v) := by
   rw [parseGo, splitAt1_append 61 k _ hk]
@@ -686,15 +626,8 @@ theorem parseGo_entry (fuel : Nat) (k v tailS : Bytes) (acc : DMap)
     simp only [hq, if_true, List.cons_append, List.append_assoc, List.isEmpty_cons, List.head?_cons, List.tail_cons,
       Bool.false_eq_true, if_false]
     rw [escape_eq_escd]
-    have hfc := findClose_escd v tailS 34 (by simp) hv
     simp only [List.nil_append]
-    rw [hfc]
-    have htake : (escd v ++ 34 :: tailS).take (escd v).length = escd v := by simp
-    have hdrop : (escd v ++ 34 :: tailS).drop ((escd v).length + 2) = tailS.drop 1 := by
-      rw [show (escd v).length + 2 = (escd v).length + (1 + 1) by omega, ← List.drop_drop]
-      simp
-    simp only []
-    rw [htake, hdrop, ← escape_eq_escd, unescape_escape]
+    rw [scanQuoted_escd]
   · -- not quoted
     have hq' : needsQuote v = false := by simpa using hq
     obtain ⟨h34, h44⟩ := seps_facts v hq'
@@ -740,15 +673,14 @@ theorem serializeMessage_cons (kv : Bytes × Bytes) (m : DMap) :
 
 theorem parseGo_entries (m : DMap) (kv : Bytes × Bytes) (acc : DMap) (fuel : Nat)
     (hfuel : (serEntry kv ++ restS m).length < fuel)
-    (hkeys : ∀ e ∈ kv :: m, (61 : UInt8) ∉ e.1 ∧ trim e.1 = e.1)
-    (hvals : ∀ e ∈ kv :: m, e.2.getLast? ≠ some 92) :
+    (hkeys : ∀ e ∈ kv :: m, (61 : UInt8) ∉ e.1 ∧ trim e.1 = e.1) :
     parseGo fuel (serEntry kv ++ restS m) acc = (kv :: m).foldl (fun a e => mapInsert a e.1 e.2) acc := by
   induction m generalizing kv acc fuel with
   | nil =>
     cases fuel with
     | zero => omega
     | succ f =>
-      have := parseGo_entry f kv.1 kv.2 [] acc (hkeys kv (by simp)).1 (hkeys kv (by simp)).2 (hvals kv (by simp)) (Or.inl rfl)
+      have := parseGo_entry f kv.1 kv.2 [] acc (hkeys kv (by simp)).1 (hkeys kv (by simp)).2 (Or.inl rfl)
       simp only [List.append_nil] at this
       simp [restS, serEntry_eq, this, parseGo_nil]
   | cons e t ih =>
@@ -757,15 +689,14 @@ theorem parseGo_entries (m : DMap) (kv : Bytes × Bytes) (acc : DMap) (fuel : Na
     | succ f =>
       have hr : restS (e :: t) = 44 :: (serEntry e ++ restS t) := by simp [restS]
       have := parseGo_entry f kv.1 kv.2 (44 :: (serEntry e ++ restS t)) acc (hkeys kv (by simp)).1 (hkeys kv (by simp)).2
-        (hvals kv (by simp)) (Or.inr rfl)
+        (Or.inr rfl)
       rw [hr, serEntry_eq kv, List.append_assoc, List.cons_append, this]
       simp only [List.drop_one, List.tail_cons]
       rw [ih e _ f (by
             rw [hr] at hfuel
             simp only [List.length_append, List.length_cons] at hfuel ⊢
             omega)
-          (fun x hx => hkeys x (by simp [List.mem_cons] at hx ⊢; rcases hx with h | h <;> simp [h]))
-          (fun x hx => hvals x (by simp [List.mem_cons] at hx ⊢; rcases hx with h | h <;> simp [h]))]
+          (fun x hx => hkeys x (by simp [List.mem_cons] at hx ⊢; rcases hx with h | h <;> simp [h]))]
       simp
 
 theorem bytesLt_irrefl (a : Bytes) : bytesLt a a = false := by
@@ -802,13 +733,12 @@ theorem foldl_insert_sorted (m acc : DMap) (hacc : ∀ a ∈ acc, ∀ e ∈ m, b
 
 theorem parse_serialize (m : DMap)
     (hs : m.Pairwise fun a b => bytesLt a.1 b.1 = true)
-    (hkeys : ∀ e ∈ m, (61 : UInt8) ∉ e.1 ∧ trim e.1 = e.1)
-    (hvals : ∀ e ∈ m, e.2.getLast? ≠ some 92) :
+    (hkeys : ∀ e ∈ m, (61 : UInt8) ∉ e.1 ∧ trim e.1 = e.1) :
     parseMessage (serializeMessage m) = m := by
   cases m with
   | nil => simp [serializeMessage, parseMessage, parseGo_nil]
   | cons kv t =>
-    rw [parseMessage, serializeMessage_cons, parseGo_entries t kv [] _ (by omega) hkeys hvals,
+    rw [parseMessage, serializeMessage_cons, parseGo_entries t kv [] _ (by omega) hkeys,
       foldl_insert_sorted _ [] (by simp) hs]
     simp
 
@@ -838,14 +768,6 @@ theorem scramStep_some (C : Crypto) (cr : Cred) (s : ScramSt) (ch resp : Bytes)
         · simp at h
       · simp [scramStep, h0, h1, h2] at h
 
-def isChallenge : El → Bool
-  | .challenge _ => true
-  | _ => false
-
-def isSuccess : El → Bool
-  | .success _ => true
-  | _ => false
-
 theorem mgrRun_append (C : Crypto) (md5 : Bytes → Bytes) (cr : Cred) (st : MgrSt) (a b : List El) :
     (mgrRun C md5 cr st (a ++ b)).1 = (mgrRun C md5 cr (mgrRun C md5 cr st a).1 b).1 := by
   induction a generalizing st with
@@ -859,96 +781,62 @@ theorem mgrRun_not_pending (C : Crypto) (md5 : Bytes → Bytes) (cr : Cred) (st 
   | nil => rfl
   | cons e t ih => simp [mgrRun, mgrStep, h, ih]
 
-/-- SCRAM invariant of a manager state after `n` answered challenges -/
-def MgrInv (st : MgrSt) (n : Nat) : Prop :=
-  ∃ s, st.mech = .scram s
-    ∧ (st.pending = true → s.step = n + 1 ∧ s.step ≤ 3 ∧ (s.step = 3 → s.verified = true))
-    ∧ (st.pending = false → st.result ≠ some .success)
+/-- invariant of every manager state: success is never recorded while the task is pending, and once recorded the
+mechanism reports the server as verified -/
+def MgrInv (st : MgrSt) : Prop :=
+  (st.pending = true → st.result ≠ some .success)
+  ∧ (st.result = some .success → mechVerified st.mech = true)
 
-theorem mgrInv_start (C : Crypto) (md5 : Bytes → Bytes) (cr : Cred) (sasl2 : Bool) :
-    MgrInv (mgrStart C md5 cr sasl2 .scram).1 0 := by
-  refine ⟨scramSt1 cr, ?_, ?_, ?_⟩
-  · simp [mgrStart, mechInit, mechRespond, scram_step0]
-  · intro _; simp [scramSt1]
-  · simp [mgrStart, mechInit, mechRespond, scram_step0]
+theorem mgrInv_start (C : Crypto) (md5 : Bytes → Bytes) (cr : Cred) (sasl2 : Bool) (k : MechKind) :
+    MgrInv (mgrStart C md5 cr sasl2 k).1 := by
+  unfold mgrStart
+  dsimp only
+  split <;> simp [MgrInv]
 
-theorem mgrInv_step (C : Crypto) (md5 : Bytes → Bytes) (cr : Cred) (st : MgrSt) (n : Nat) (el : El)
-    (hinv : MgrInv st n) (hns : isSuccess el = false) :
-    MgrInv (mgrStep C md5 cr st el).1 (n + if isChallenge el then 1 else 0) := by
-  obtain ⟨s, hm, hp, hr⟩ := hinv
+theorem mgrInv_step (C : Crypto) (md5 : Bytes → Bytes) (cr : Cred) (st : MgrSt) (el : El) (hinv : MgrInv st) :
+    MgrInv (mgrStep C md5 cr st el).1 := by
+  obtain ⟨hp, hr⟩ := hinv
   by_cases hpend : st.pending = true
-  · obtain ⟨hstep, hle, hver⟩ := hp hpend
+  · have hns := hp hpend
     cases el with
-    | success d => simp [isSuccess] at hns
+    | success d =>
+      simp only [mgrStep, hpend, Bool.not_true, Bool.false_eq_true, if_false]
+      by_cases hv : mechVerified st.mech = true
+      · simp [hv, MgrInv]
+      · simp only [hv, Bool.false_eq_true, if_false]
+        split
+        · simp [MgrInv]
+        · split
+          · rename_i hc
+            simp only [Bool.and_eq_true] at hc
+            simp [MgrInv, hc.2]
+          · simp [MgrInv]
     | challenge data =>
-      simp only [mgrStep, hpend, Bool.not_true, Bool.false_eq_true, if_false, hm, mechRespond, isChallenge, if_true]
-      cases hresp : (scramStep C cr s data).2 with
-      | none =>
-        refine ⟨(scramStep C cr s data).1, rfl, ?_, ?_⟩
-        · intro h; simp at h
-        · intro _; simp
-      | some resp =>
-        obtain ⟨h1, h2, h3⟩ := scramStep_some C cr s data resp hresp
-        refine ⟨(scramStep C cr s data).1, rfl, ?_, ?_⟩
-        · intro _; exact ⟨by omega, by omega, h3⟩
-        · intro h; simp at h
+      simp only [mgrStep, hpend, Bool.not_true, Bool.false_eq_true, if_false]
+      split
+      · exact ⟨fun _ => hns, fun h => absurd h hns⟩
+      · simp [MgrInv]
     | failure a =>
-      simp only [mgrStep, hpend, Bool.not_true, Bool.false_eq_true, if_false, isChallenge, Nat.add_zero]
-      split
-      · exact ⟨s, hm, by intro h; simp at h, by intro _; simp⟩
-      · exact ⟨s, hm, by intro h; simp at h, by intro _; simp⟩
+      simp only [mgrStep, hpend, Bool.not_true, Bool.false_eq_true, if_false]
+      split <;> simp [MgrInv]
     | continue_ =>
-      simp only [mgrStep, hpend, Bool.not_true, Bool.false_eq_true, if_false, isChallenge, Nat.add_zero]
+      simp only [mgrStep, hpend, Bool.not_true, Bool.false_eq_true, if_false]
       split
-      · exact ⟨s, hm, fun _ => ⟨hstep, hle, hver⟩, by intro h; simp at h⟩
-      · exact ⟨s, hm, fun _ => ⟨hstep, hle, hver⟩, hr⟩
+      · exact ⟨fun _ => hns, fun h => absurd h hns⟩
+      · exact ⟨hp, hr⟩
     | unknown =>
-      simp only [mgrStep, hpend, Bool.not_true, Bool.false_eq_true, if_false, isChallenge, Nat.add_zero]
-      exact ⟨s, hm, fun _ => ⟨hstep, hle, hver⟩, hr⟩
+      simp only [mgrStep, hpend, Bool.not_true, Bool.false_eq_true, if_false]
+      exact ⟨hp, hr⟩
   · have hpf : st.pending = false := by simpa using hpend
     have : (mgrStep C md5 cr st el).1 = st := by simp [mgrStep, hpf]
     rw [this]
-    exact ⟨s, hm, by intro h; simp [hpf] at h, hr⟩
+    exact ⟨hp, hr⟩
 
-theorem mgrInv_run (C : Crypto) (md5 : Bytes → Bytes) (cr : Cred) (st : MgrSt) (n : Nat) (els : List El)
-    (hinv : MgrInv st n) (hns : ∀ e ∈ els, isSuccess e = false) :
-    MgrInv (mgrRun C md5 cr st els).1 (n + (els.filter isChallenge).length) := by
-  induction els generalizing st n with
-  | nil => simpa [mgrRun] using hinv
-  | cons e t ih =>
-    have h1 := mgrInv_step C md5 cr st n e hinv (hns e (by simp))
-    have h2 := ih _ _ h1 (fun x hx => hns x (by simp [hx]))
-    simp only [mgrRun]
-    by_cases hc : isChallenge e = true
-    · simp only [hc, if_true] at h2
-      simp only [List.filter_cons, hc, if_true, List.length_cons]
-      rw [show n + ((t.filter isChallenge).length + 1) = n + 1 + (t.filter isChallenge).length by omega]
-      exact h2
-    · have hc' : isChallenge e = false := by simpa using hc
-      simp only [hc', Bool.false_eq_true, if_false, Nat.add_zero] at h2
-      simpa [List.filter_cons, hc'] using h2
-
-/-- the partial theorem of `Props/C06.lean` -/
-theorem success_after_two_challenges (C : Crypto) (md5 : Bytes → Bytes) (cr : Cred) (sasl2 : Bool)
-    (pre post : List El) (d : Option Bytes)
-    (hpre : ∀ e ∈ pre, isSuccess e = false)
-    (hch : 2 ≤ (pre.filter isChallenge).length)
-    (hres : (mgrRun C md5 cr (mgrStart C md5 cr sasl2 .scram).1 (pre ++ El.success d :: post)).1.result = some .success) :
-    serverSignatureVerified (mgrRun C md5 cr (mgrStart C md5 cr sasl2 .scram).1 (pre ++ El.success d :: post)).1 = true := by
-  rw [mgrRun_append] at hres ⊢
-  obtain ⟨s, hm, hp, hr⟩ := mgrInv_run C md5 cr _ 0 pre (mgrInv_start C md5 cr sasl2) hpre
-  generalize (mgrRun C md5 cr (mgrStart C md5 cr sasl2 .scram).1 pre).1 = st at hm hp hr hres ⊢
-  by_cases hpend : st.pending = true
-  · obtain ⟨hstep, hle, hver⟩ := hp hpend
-    have h3 : s.step = 3 := by omega
-    have hst : (mgrRun C md5 cr st (El.success d :: post)).1 = { st with pending := false, result := some .success } := by
-      simp only [mgrRun, mgrStep, hpend, Bool.not_true, Bool.false_eq_true, if_false]
-      exact mgrRun_not_pending C md5 cr _ post rfl
-    rw [hst]
-    simp [serverSignatureVerified, hm, hver h3]
-  · have hpf : st.pending = false := by simpa using hpend
-    rw [mgrRun_not_pending C md5 cr st _ hpf] at hres
-    exact absurd hres (hr hpf)
+theorem mgrInv_run (C : Crypto) (md5 : Bytes → Bytes) (cr : Cred) (st : MgrSt) (els : List El) (hinv : MgrInv st) :
+    MgrInv (mgrRun C md5 cr st els).1 := by
+  induction els generalizing st with
+  | nil => exact hinv
+  | cons e t ih => exact ih _ (mgrInv_step C md5 cr st e hinv)
 
 /-! ## PLAIN, DIGEST bits -/
 
